@@ -32,7 +32,8 @@ LEVEL_TEXT = (
     "Tie: LOCK-STEP correspondence: the real hub runs real threads under a deterministic scheduler (sys.settrace "
     "parks each thread in front of every such line, located by AST pattern), the compiled model runs the same "
     "schedule, and after EVERY step the shared state, every thread's position, results, callback storage and the "
-    "set of enabled threads must be equal. Oracle: sent vs delivered sequences on the real hub.")
+    "set of enabled threads must be equal. Oracle: sent vs delivered sequences on the real hub, also in a "
+    "model-free stream in which EVERY line of socket_hub.py (any function) is a scheduling point.")
 LEVEL_NOTE = (
     "PARTIAL (labelled): below statement granularity (preemption inside a source line / inside C code), timeouts, "
     "sleep (set to 0), garbage-collection driven __del__ and dead WeakMethods are not modelled; atomicity of single "
@@ -156,6 +157,18 @@ def run(ctx):
                     continue
                 raise RuntimeError("hub worker failed:\n" + sm["error"])
             _merge(res, sm, "hub.lockstep.random")
+        # ---- model-free stream at EVERY-LINE granularity (independent of the model's table of shared accesses):
+        # concurrent senders towards callback / plain receivers, every line of socket_hub.py (any function, also
+        # ones the model does not know) is a scheduling point; all schedules with one forced switch + random
+        # ones with two; judged by the oracle only. Larger when the AST tie is already broken.
+        n_scen = len(H.coarse_scenarios())
+        n_two = 400 if ctx.thorough else (150 if not strict_ok else 30)
+        cdeadline = time.time() + (240 if ctx.thorough else 40)
+        cjobs = [([i], n_two, rng.randrange(1 << 30), cdeadline) for i in range(n_scen)]
+        for sm in pool.map(H.worker_coarse, cjobs):
+            if sm["error"]:
+                raise RuntimeError("hub worker failed:\n" + sm["error"])
+            _merge(res, sm, "hub.coarse")
         # ---- bounded-exhaustive: 2 endpoints x <= 2 operations, <= 2 preemptions
         small = H.small_programs()
         pairs = [(a, b) for a in small for b in small]
